@@ -132,19 +132,36 @@ func stepwise(g *graph.G, n datamodel.Node, p datamodel.Path) (datamodel.Node, e
 // HVisitPaths: for every visit of a full walk, resolving the visit's path from the root with Get,
 // with Focus and segment by segment returns the visited node.
 func HVisitPaths() {
-	g := graph.New("g", graphs[nd.Choose("graph", nd.Param("G", len(graphs)))])
+	which := nd.Choose("selector", 4)
+	ng := nd.Param("G", len(graphs))
+	if which > 0 && ng > 3 {
+		ng = 3 // the clause-led walks: over the first three graphs (lists, maps, links)
+	}
+	g := graph.New("g", graphs[nd.Choose("graph", ng)])
 	cfg := &traversal.Config{LinkSystem: g.LS, LinkTargetNodePrototypeChooser: graph.Chooser}
 	type visit struct {
 		p datamodel.Path
 		v *refval.V
 	}
 	var vs []visit
-	err := traversal.Progress{Cfg: cfg}.WalkAdv(g.Root, compile(allRec), func(p traversal.Progress, n datamodel.Node, r traversal.VisitReason) error {
+	// the walk of everything, or walks led by field and index clauses with a free name / index
+	// (applied to maps and lists alike: whatever they visit must be addressable by the path reported)
+	sel := allRec
+	match := &selgen.Sel{Op: '.'}
+	switch which {
+	case 1:
+		sel = &selgen.Sel{Op: 'f', Fields: []string{nd.String("field", 1)}, Subs: []*selgen.Sel{{Op: '|', Subs: []*selgen.Sel{match, {Op: 'a', Subs: []*selgen.Sel{match}}}}}}
+	case 2:
+		sel = &selgen.Sel{Op: 'a', Subs: []*selgen.Sel{{Op: 'f', Fields: []string{nd.String("field", 1)}, Subs: []*selgen.Sel{match}}}}
+	case 3:
+		sel = &selgen.Sel{Op: 'a', Subs: []*selgen.Sel{{Op: 'i', Index: int64(nd.Choose("index", 3)), Subs: []*selgen.Sel{match}}}}
+	}
+	err := traversal.Progress{Cfg: cfg}.WalkAdv(g.Root, compile(sel), func(p traversal.Progress, n datamodel.Node, r traversal.VisitReason) error {
 		vs = append(vs, visit{p.Path, refval.Of(n)})
 		return nil
 	})
 	nd.Assert(err == nil, "walk")
-	nd.Assert(len(vs) > 1, "the walk visits the graph")
+	nd.Assert(sel != allRec || len(vs) > 1, "the walk visits the graph")
 	for _, v := range vs {
 		got, err := traversal.Progress{Cfg: cfg}.Get(g.Root, v.p)
 		nd.Assert(err == nil, "Get resolves the path of every visit")
